@@ -23,9 +23,13 @@ type poolMeta struct {
 	// that overlaps it may become allocatable until it is gone (or the admin disables it, which by the
 	// controller's documented rule stops a pool from blocking others).
 	maskObl bool
+	maskAt  int             // length of the pool event log right after the deletion was recorded
 	okTrue  map[string]bool // pools that were already allocatable when the obligation started, and have been ever since
 	// allocAtDeletion: the pool was allocatable when it became terminating (its blocks are its own).
 	allocAtDeletion bool
+	// staleTouched: some condition write on (or enabling over) this pool was made by a pass that had missed a change to
+	// an overlapping pool; violations involving it are tagged STALE-PASS (known finding) or, in waive mode, not raised.
+	staleTouched bool
 }
 
 func (h *harness) existing(uid string) *v3.IPPool {
@@ -111,6 +115,7 @@ func (h *harness) onAdminDeleteTerminating(p *v3.IPPool) {
 	if isTrue(p) && !p.Spec.Disabled {
 		m.allocAtDeletion = true
 		m.maskObl = true
+		m.maskAt = len(h.api.poolLog)
 		m.okTrue = map[string]bool{}
 		for _, om := range h.sortedMeta() {
 			if o := h.existing(om.uid); o != nil && om.uid != m.uid && om.pfx.Overlaps(m.pfx) && isTrue(o) {
@@ -155,26 +160,78 @@ func (h *harness) updateContested() {
 	}
 }
 
+// staleFor reports whether the pass that is writing target decided on a pool cache that missed a change to a pool
+// overlapping target (changes the pass made itself do not count: it knows those).  Such a pass acts on a world
+// that no longer exists; per-object optimistic concurrency cannot protect it because the invariant spans objects.
+func (h *harness) staleFor(inc *incarnation, target *poolMeta) bool {
+	for i := inc.snapPos; i < len(h.api.poolLog); i++ {
+		ev := h.api.poolLog[i]
+		if !ev.relevant || ev.pass == inc.passID || string(ev.pool.UID) == target.uid {
+			continue
+		}
+		if m := h.meta[string(ev.pool.UID)]; m != nil && m.pfx.Overlaps(target.pfx) {
+			return true
+		}
+	}
+	return false
+}
+
+func staleTag(stale bool) string {
+	if stale {
+		return "STALE-PASS: "
+	}
+	return ""
+}
+
 // afterConditionWrite runs after every status write of the controller that the API server accepted.
-func (h *harness) afterConditionWrite(p *v3.IPPool, wasTrue bool) {
+func (h *harness) afterConditionWrite(inc *incarnation, p *v3.IPPool, wasTrue bool) {
 	r := h.r
 	me := h.meta[string(p.UID)]
 	nowTrue := isTrue(p)
 	ms := h.sortedMeta()
+	stale := h.staleFor(inc, me)
+	if stale && nowTrue != wasTrue {
+		r.Probe("stale_pass_wrote_condition")
+		me.staleTouched = true
+		r.Logf("  oracle: this pass listed the pool cache at event %d and has missed a later change to a pool overlapping %s", inc.snapPos, me.name)
+		if wasTrue {
+			r.Probe("stale_pass_disabled_allocatable")
+			if h.waiveStale {
+				me.protects = map[string]bool{}
+			}
+		} else {
+			for _, om := range ms {
+				if o := h.existing(om.uid); o != nil && om.uid != me.uid && om.pfx.Overlaps(me.pfx) && isTrue(o) {
+					r.Probe("stale_pass_enabled_over_allocatable")
+					om.staleTouched = true
+					if h.waiveStale {
+						om.protects = map[string]bool{}
+					}
+				}
+			}
+		}
+	}
 	if nowTrue && !wasTrue {
 		// "a terminating pool keeps masking overlapping pools until it is gone"
-		gonePeer := false
 		r.Eval()
 		for _, tm := range ms {
 			if tm.uid == me.uid || !tm.maskObl || !tm.pfx.Overlaps(me.pfx) {
 				continue
 			}
-			if t := h.existing(tm.uid); t != nil {
-				r.Violation("terminating_pool_unmasked",
-					"controller made %s allocatable while the overlapping pool %s, which was allocatable when it was deleted, is still terminating (finalizers %v, %d of its blocks left)",
-					poolLine(p), poolLine(t), t.Finalizers, h.ownedBlocks(tm.uid))
+			t := h.existing(tm.uid)
+			if t == nil {
+				continue
 			}
+			if stale && h.waiveStale {
+				r.Probe("stale_pass_enabled_pool_over_terminating")
+				tm.okTrue[me.uid] = true
+				continue
+			}
+			r.Violation("terminating_pool_unmasked",
+				"%scontroller made %s allocatable while the overlapping pool %s, which was allocatable when it was deleted, is still terminating (finalizers %v, %d of its blocks left); the pass listed its pool cache %d events after the deletion was recorded",
+				staleTag(stale), poolLine(p), poolLine(t), t.Finalizers, h.ownedBlocks(tm.uid), inc.snapPos-tm.maskAt)
 		}
+		gonePeer := false
 		for _, tm := range h.meta {
 			if tm.gone && tm.allocAtDeletion && tm.pfx.Overlaps(me.pfx) {
 				gonePeer = true
@@ -208,8 +265,8 @@ func (h *harness) afterConditionWrite(p *v3.IPPool, wasTrue bool) {
 				continue
 			}
 			r.Check("allocatable_pool_displaced", !(isTrue(x) && !isTrue(pp)),
-				"%s was allocatable when the overlapping pool %s was created and the admin has not disabled or deleted it since, yet now the newcomer is allocatable and it is not",
-				poolLine(pp), poolLine(x))
+				"%s%s was allocatable when the overlapping pool %s was created and the admin has not disabled or deleted it since, yet now the newcomer is allocatable and it is not",
+				staleTag(pm.staleTouched || xm.staleTouched), poolLine(pp), poolLine(x))
 		}
 	}
 	// reach: transient double allocation (only judged at quiescence)
@@ -293,8 +350,8 @@ func (h *harness) finalOracle() {
 			}
 			r.Probe("protected_pool_checked_at_quiescence")
 			r.Check("allocatable_pool_displaced", isTrue(p),
-				"%s was allocatable when the overlapping pool %s was created and the admin has not disabled or deleted it since, yet after convergence it is not allocatable",
-				poolLine(p), poolLine(h.existing(xm.uid)))
+				"%s%s was allocatable when the overlapping pool %s was created and the admin has not disabled or deleted it since, yet after convergence it is not allocatable",
+				staleTag(pm.staleTouched || xm.staleTouched), poolLine(p), poolLine(h.existing(xm.uid)))
 		}
 	}
 	// terminating pools still mask
@@ -313,7 +370,7 @@ func (h *harness) finalOracle() {
 				continue
 			}
 			r.Check("terminating_pool_unmasked", !isTrue(x) || tm.okTrue[xm.uid],
-				"after convergence %s is allocatable although it overlaps %s, which was allocatable when deleted and is still terminating", poolLine(x), poolLine(t))
+				"%safter convergence %s is allocatable although it overlaps %s, which was allocatable when deleted and is still terminating", staleTag(xm.staleTouched), poolLine(x), poolLine(t))
 		}
 	}
 	// reach only (not part of the property statement): is the allocatable set maximal?
